@@ -373,6 +373,12 @@ class MechDriver(Harness):
             self.conf_kind = a[0]
             rv = self.configure(a[0], a[1])
             ev.update(kind=a[0], m0=a[1], line=self.confline)
+            # (beyond the listed properties, MechInfo.tla: what C_GetMechanismInfo says about m0)
+            FL = {"ENCRYPT": 0x100, "DECRYPT": 0x200, "DIGEST": 0x400, "SIGN": 0x800, "VERIFY": 0x2000, "GENERATE": 0x8000,
+                  "GENERATE_KEY_PAIR": 0x10000, "WRAP": 0x20000, "UNWRAP": 0x40000, "DERIVE": 0x80000}
+            mid = getattr(K, "CKM_" + a[1], None)
+            r2, mi = p.mechanism_info(self.slot["t1"], mid) if (mid is not None and rv == 0) else (1, None)
+            ev["fl"] = sorted(n for n, b in FL.items() if mi and mi["flags"] & b) if r2 == 0 else None
         elif name == "MUnconfigure":
             pass
         elif name == "MMakeKey":
